@@ -340,6 +340,34 @@ fn node_before(canon: &str, pos: usize) -> String {
     "?".into()
 }
 
+/// The constructor names at which two canonical trees start to differ: `Function->Type` means the
+/// source tree has `Function(..` where the output tree has `Type`.  Falls back to the enclosing
+/// node when the difference is inside a string or a number.
+fn diff_words(a: &str, b: &str, pos: usize) -> String {
+    fn word(s: &str, pos: usize) -> String {
+        let b = s.as_bytes();
+        let ok = |c: u8| c.is_ascii_alphanumeric() || c == b'_';
+        let mut st = pos.min(b.len());
+        while st > 0 && ok(b[st - 1]) {
+            st -= 1;
+        }
+        let mut e = st;
+        while e < b.len() && ok(b[e]) {
+            e += 1;
+        }
+        s[st..e].to_string()
+    }
+    let (wa, wb) = (word(a, pos), word(b, pos));
+    let is_ctor = |w: &str| w.chars().next().map_or(false, |c| c.is_ascii_uppercase());
+    // inside a quoted string the words are program text, not constructors
+    let quotes = a.as_bytes()[..pos.min(a.len())].iter().filter(|c| **c == b'"').count();
+    if quotes % 2 == 0 && (is_ctor(&wa) || is_ctor(&wb)) {
+        format!("{}->{}", if is_ctor(&wa) { wa } else { "_".into() }, if is_ctor(&wb) { wb } else { "_".into() })
+    } else {
+        node_before(a, pos)
+    }
+}
+
 fn idem_key(out1: &str, out2: &str) -> (String, String) {
     let a = out1.as_bytes();
     let b = out2.as_bytes();
@@ -413,7 +441,15 @@ pub fn evaluate(vm: &RootedThread, name: &str, src: &str) -> Eval {
                 let at = sl.as_ref().map_or("?".to_string(), |sl| diverge_key(src, sl, &out));
                 failures.push(Failure {
                     cat: "fmt-ast-changed".into(),
-                    key: if at == "at-END" { format!("fmt-ast-changed:{}", node_before(&ast0, pos)) } else { format!("fmt-ast-changed:{}", at) },
+                    // the tree node in which the trees start to differ + the first source token that
+                    // the output does not have at that place
+                    key: if at == "at-END" {
+                        format!("fmt-ast-changed:{}", diff_words(&ast0, &ast1, pos))
+                    } else {
+                        // only the kind of the missing token: the tree part already names the construct
+                        let tok = at.rsplit("..").next().unwrap_or(&at).trim_start_matches("at-");
+                        format!("fmt-ast-changed:{}@{}", diff_words(&ast0, &ast1, pos), tok)
+                    },
                     what: "the formatted text parses to a different syntax tree".into(),
                     detail: d,
                 });
